@@ -4,8 +4,9 @@ package main
 // (field table pairs, fields index, stored-document index, doc-value trailer)
 // are written and read with the widths, strides and order of the v16 layout.
 //
-// Only the fixed-width parts are decided; the uvarint streams in between are
-// runtime-length and are not (DESIGN.md §7).
+// Only the fixed-width parts are decided, and (rules_header.go) the three-uvarint
+// record a section keeps per field, on the writer side; the other uvarint
+// streams in between are runtime-length and are not (DESIGN.md §7).
 
 import (
 	"fmt"
@@ -434,7 +435,7 @@ func ruleR27() *Rule {
 					"reads: "+strings.Join(roles, ", "))
 			}
 			// ---- 5. the per-field record of a section (three uvarints) ----------------
-			// r27SectionHeader(c)
+			r27SectionHeader(c)
 		},
 	}
 }
